@@ -1,10 +1,10 @@
 """C01 -- memoized evaluation returns exactly what plain execution would return."""
-from contracts import api, api_stages, inspect_call, structures_utils, introspect_compose, sigs, auth_type
+from contracts import api, api_stages, inspect_call, structures_utils, introspect_compose, sigs, auth_type, retrieve_rec
 from ._api_common import TRUSTED_API, owner, _AnyApiClause
 
 ID = "C01"
 LEVEL = "other"
-EXPLANATION = 'Proved (SERVE): under the store invariant INV (every blob equals the value its key denotes) _eval and _eval_new_ctx return the value of plain execution on hit and on miss, store the result only after the user function returned, under the requested key, and preserve INV; keep/eval delegate unchanged. Dependency discovery is bounded.'
+EXPLANATION = 'Proved (SERVE): under the store invariant INV (every blob equals the value its key denotes) _eval and _eval_new_ctx return the value of plain execution on hit and on miss, store the result only after the user function returned, under the requested key, and preserve INV; keep/eval delegate unchanged. Name resolution (_retrieve_object_rec: which object a dotted name denotes and whether it is tracked) is proved over an abstract object graph; the rest of dependency discovery (which names a body refers to) is bounded.'
 TRUSTED = TRUSTED_API
 ASSUMPTIONS = ["A-USER", "A-DET", "A-LOG", "A-FLOAT", "A-ALIAS"]
 LEVEL_TEXT = 'Deductive proof of cache-serve soundness over the store interface contract; signature composition is proved in the hashing contracts; dependency discovery (which no contract within reach can state for arbitrary programs) is a bounded stand-in.'
@@ -14,7 +14,7 @@ owns = owner("C01")
 
 
 def specs():
-    return [c() for c in api.SPECS] + [c() for c in structures_utils.SPECS] + [c() for c in introspect_compose.SPECS] + [c() for c in sigs.SPECS] + [c() for c in inspect_call.SPECS] + [c() for c in auth_type.SPECS]
+    return [c() for c in api.SPECS] + [c() for c in structures_utils.SPECS] + [c() for c in introspect_compose.SPECS] + [c() for c in sigs.SPECS] + [c() for c in inspect_call.SPECS] + [c() for c in auth_type.SPECS] + [c() for c in retrieve_rec.SPECS]
 
 
 def bounded(tier, seed, pr):
